@@ -214,8 +214,7 @@ def member_count(ctx):
             self._allSolvers[i] = op
     return self._allSolvers
 '''.replace('self', sn)
-    got = SB.summary(g.node)
-    want = SB.summary_of_source(ref)
+    got, want = SB.agree(g.node, ref)
     ctx.stats['terms_compared'] += len(got)
     ctx.check(got == want, '__init_allSolvers', 'every empty slot i gets its own _copy(prototype) with id i + offset; filled slots are left alone',
               'member creation changed: %s' % SB.diff(got, want), g, g.node)
